@@ -62,7 +62,7 @@ def frame_oracle(ir, case):
 
 
 def run(rep, model, tier, seed, broken=()):
-    n = 150 if tier == "quick" else 5000
+    n = 300 if tier == "quick" else 5000
     rng = core.rng_for(seed, "C12")
     rep.coverage["rule"] = ("generated trees and single files x prefix (absent, -p, config, both) x separator "
                             "(., ::, /, multi-char) x both extension flags x header lists x input spelling (absolute, "
